@@ -40,6 +40,15 @@ def job_seps(j):
             o2 = trade.create_order("BACK", LimitOrder(2.0, 2.0), sep=s); r.append(o2.sep == s)
         except ValueError:
             r.append(False)
+        # the documented configuration default overridden with the candidate itself
+        saved = config.order_sep
+        config.order_sep = s
+        try:
+            o3 = BetfairOrder(trade, "BACK", LimitOrder(2.0, 2.0), sep=s); r.append(o3.sep == s)
+        except ValueError:
+            r.append(False)
+        finally:
+            config.order_sep = saved
         out.append(r)
     return out
 
@@ -124,9 +133,20 @@ def job_unique(j):
     from flumine.simulation.utils import SimulatedDateTime
     sd = SimulatedDateTime()
     with sd:
-        sd(1700000000000)
+        import datetime as _dt
+        sd(_dt.datetime(2023, 11, 14, 22, 13, 20))
         sim = []
         work(j["n"] // 4, sim)
+        # a run replays markets one after another: the simulated clock rewinds to the same publish times
+        saved = config.simulated
+        config.simulated = True
+        try:
+            for _market in range(3):
+                for sec in range(20):
+                    sd(_dt.datetime(2023, 11, 14, 22, 13, 20) + _dt.timedelta(seconds=sec))
+                    work(10, sim)
+        finally:
+            config.simulated = saved
     allids += sim
     return {"n": len(allids), "distinct": len(set(allids)), "maxlen": max(len(x) for x in allids), "alldigits": all(x.isdigit() for x in allids)}
 
